@@ -56,15 +56,29 @@ TRUSTED = [
 ]
 ASSUMPTIONS = [
     'raised objects derive from Exception (falcon does not catch BaseException-only raises, by design)',
+    'the exception OBJECT may be hostile in what it DOES when looked at (harness/lib_hostileexc.py: __str__/__repr__/__format__ raising or returning non-str, args / __traceback__ / __cause__ / '
+    '__context__ / __notes__ properties raising, __eq__/__hash__/__bool__ raising, unhashable or falsy objects, __getattr__ raising a non-AttributeError, hostile __notes__ / __dir__, a metaclass whose '
+    '__name__ / __qualname__ / __module__ lookup raises or gives a non-str / odd string or whose __repr__/__eq__/__getattr__ raise; raised with hostile or cyclic cause/context, a 1200-long context chain, '
+    'with_traceback(None) / a foreign traceback, a re-raised instance, `raise Cls`, inside an ExceptionGroup, from a released frame); what the object IS (its class, __mro__, __class__) is always honest, '
+    'and its class can be used as a dict key (a metaclass __eq__ that raises keeps the identity hash)',
     'title/description/href strings are sequences of Unicode scalar values (a lone surrogate cannot be encoded as UTF-8 JSON: falcon raises UnicodeEncodeError to the server); '
     'when the client prefers XML they are additionally XML-1.0 characters without carriage return (other characters are not representable in XML 1.0 at all)',
     'header values of HTTPError/HTTPStatus are ASCII and header names are not repeated (set_headers semantics; header well-formedness is C05)',
     'an error handler that itself raises something other than HTTPError/HTTPStatus is outside the statement: the oracle accepts both "propagates to the server" and "500"',
     'the Accept header is ASCII and its q values have at most four decimals and no exponent (the fragment of the negotiation model; the oracles do not need this)',
     'media handler objects are truthy and none is registered under the literal key "*/*" (needed only by Es.serialize_xml_type and the second half of Es.serialize_typeOnly_only)',
-    'Accept headers come from a well-formed grammar of up to 3 media ranges with q in {absent, 0, 0.1, 0.5, 0.9, 1}',
+    'Accept headers come from a well-formed grammar of up to 3 media ranges with q in {absent, 0, 0.1, 0.5, 0.9, 1}, in any letter case (see above)',
 ]
-RULE = ('(a) resolution: random exception class DAGs (1..6 generated classes with 1..3 bases under Exception / LookupError / KeyError / ValueError / HTTPError / HTTPNotFound / '
+RULE = ('[two dimensions added after seeds C04_8 / C04_9: (i) the raised exception OBJECT is an input in parts (a), (b), (c): with probability 0.2-0.75 per case its class is built by '
+        'lib_hostileexc.build with one of 33 hostile behaviours (dunder methods that raise or return the wrong type, falsy objects, hostile __notes__, metaclasses whose __name__ / __qualname__ / '
+        '__module__ / __repr__ / __eq__ / __getattr__ misbehave) and/or it is raised by lib_hostileexc.throw in one of 16 unusual ways (hostile / cyclic cause and context, 1200-long chain, traceback '
+        'manipulations, re-raised instance, `raise Cls`, ExceptionGroup, generator, released frame); HTTPError / HTTPStatus subclasses and the errors a handler raises get the same treatment; every '
+        'raise site, both stacks; for these cases the `falcon` logger gets a real formatting handler (as in a deployment); the statement decides: the nearest handler runs, the default is a 500 and '
+        'nothing escapes; (ii) letter case of every token the negotiation reads in part (c) (half of the headers: type, subtype, +suffix, q name re-cased independently - as is / UPPER / Title / random '
+        'per letter -, separators with optional whitespace; four more vendor +json / +xml types in the pool) and more +suffix / wildcard / well-known types in other case in part (d); the RFC evaluator '
+        'of (c) and (d) is case-insensitive and (d) now also judges the documented +json / +xml fallback. Both dimensions found defects of the unchanged tree, repaired in /repo: hostile objects '
+        'whose attribute reads raise made the built-in handler itself raise (703a4a2), media types were compared case-sensitively (a19fe30)] '
+        '(a) resolution: random exception class DAGs (1..6 generated classes with 1..3 bases under Exception / LookupError / KeyError / ValueError / HTTPError / HTTPNotFound / '
         'HTTPBadRequest / HTTPStatus, cross-family multiple inheritance included) x 0..6 registrations (single class, tuple of classes, static `handle` attribute; '
         'generated and built-in classes incl. Exception, HTTPError, HTTPStatus, BaseException) x raise site in {process_request, process_resource, responder, before hook, after hook, '
         'process_response, body rendering (media handler raising)} x WSGI+ASGI; '
@@ -90,6 +104,13 @@ D_EXC, D_HTTP, D_STATUS = 9001, 9002, 9003
 
 
 def run(ctx):
+    if ctx.shard[0] == 0:
+        # harness self-check: every generated behaviour of lib_hostileexc is really observable on the class it builds
+        import lib_hostileexc as X
+        for k in X.kinds():
+            for base in (Exception, KeyError, OSError):
+                w = X.effective(k, X.build(k, 'Probe', (base,)))
+                ctx.oracle('harness self-check: the hostile exception classes behave as named', w is None, w, {'behaviour': k, 'base': base.__name__})
     _resolution(ctx)
     _sites(ctx)
     _serialization(ctx)
@@ -204,16 +225,74 @@ def _install(app, asgi, site, raiser, preset=None, extra_mw=None):
 SITES = ['req', 'rsrc', 'responder', 'before', 'after', 'resp', 'sink', 'render']
 
 
-def _raising_media_handler(make_exc):
+def _raising_media_handler(make_exc, how='plain'):
     import falcon.media
+    import lib_hostileexc as X
 
     class RaisingHandler(falcon.media.BaseHandler):
         def serialize(self, media, content_type):
-            raise make_exc()
+            X.throw(how, make_exc)
 
         def deserialize(self, stream, content_type, content_length):
-            raise make_exc()
+            X.throw(how, make_exc)
     return RaisingHandler()
+
+
+def _nm(c):
+    """the real name of a class, whatever its metaclass answers"""
+    return type.__getattribute__(c, '__name__')
+
+
+def _pick_hostile(rnd, p, throw_ok=None):
+    """(class-level behaviour, way of raising) of the exception OBJECT of one case: with probability p one of the two is hostile.
+    `throw_ok`: predicate on the ways of raising that the case can use."""
+    import lib_hostileexc as X
+    if rnd.random() >= p:
+        return 'plain', 'plain'
+    ks = X.kinds()
+    cks = [k for k in ks if k in X.CLASS_KINDS]
+    tks = [k for k in ks if k in X.THROW_KINDS and (throw_ok is None or throw_ok(k))]
+    r = rnd.random()
+    if r < 0.6 or not tks:
+        return rnd.choice(cks), 'plain'
+    if r < 0.85:
+        return 'plain', rnd.choice(tks)
+    return rnd.choice(cks), rnd.choice(tks)
+
+
+class _LiveLogging:
+    """Inside the runner logging is disabled altogether, so `falcon._logger.error(..., exc_info=ex)` of the ASGI app would never look at
+    the exception object.  A deployment has logging on: for the cases whose exception object is hostile the `falcon` logger gets a real
+    formatting handler (writing into a sink), as `logging.basicConfig()` would give it."""
+
+    def __enter__(self):
+        import io
+        import logging
+        self.lg = logging.getLogger('falcon')
+        self.prev = (logging.root.manager.disable, self.lg.propagate, logging.raiseExceptions)
+        self.h = logging.StreamHandler(io.StringIO())
+        self.h.setFormatter(logging.Formatter('%(asctime)s %(levelname)s %(message)s'))
+        self.lg.addHandler(self.h)
+        self.lg.propagate = False
+        logging.raiseExceptions = False          # (the recommended production setting; True would only add stderr noise)
+        logging.disable(logging.NOTSET)
+        return self
+
+    def __exit__(self, *a):
+        import logging
+        self.lg.removeHandler(self.h)
+        self.lg.propagate = self.prev[1]
+        logging.raiseExceptions = self.prev[2]
+        logging.disable(self.prev[0])
+        return False
+
+
+def _call_obj(app, stack, hostile, **kw):
+    """_call; when the exception object of the case is hostile, with logging live (see _LiveLogging)"""
+    if hostile:
+        with _LiveLogging():
+            return _call(app, stack, **kw)
+    return _call(app, stack, **kw)
 
 
 # ------------------------------------------------------------------ (a) handler resolution
@@ -221,6 +300,7 @@ def _raising_media_handler(make_exc):
 def _resolution(ctx):
     import falcon
     import falcon.asgi
+    import lib_hostileexc as X
     rnd = ctx.rng
     sess = ctx.session('handler chosen by the app (WSGI+ASGI, every raise site) = Eh.find over type(ex).__mro__[:-1] and the registration history', 'ehdriver')
     name = 'the handler of the nearest registered class in the MRO runs (latest registration per class), exactly once, and the body is what it set'
@@ -245,6 +325,7 @@ def _resolution(ctx):
         status = [falcon.HTTPStatus]
         gen = []
         static_ids = {}
+        behaviours = {}
         for i in range(rnd.randint(1, 6)):
             fam = rnd.choice(['plain', 'plain', 'http', 'http', 'status', 'mixed'])
             pool = {'plain': plain, 'http': http, 'status': status, 'mixed': plain + http + status}[fam] + [g for g, f in gen if f == fam or fam == 'mixed']
@@ -253,10 +334,14 @@ def _resolution(ctx):
             if rnd.random() < 0.3:
                 hid = 500 + i
                 ns['handle'] = staticmethod(mkhandler(hid, rnd.random() < 0.7))
+            # what the OBJECTS of the class do when looked at (str / repr / ==, hash, truth, attribute reads, a metaclass ...): inherited by subclasses
+            ckind = _pick_hostile(rnd, 0.22, throw_ok=lambda k: False)[0]
             try:
-                c = type(f'E{i}', tuple(bases), ns)
-            except TypeError:
-                continue            # inconsistent MRO / layout conflict: not a class
+                c = X.build(ckind, f'E{i}', tuple(bases), ns)
+            except (TypeError, X.Hostile):
+                continue            # inconsistent MRO / layout or metaclass conflict / a hostile metaclass that does not let itself be subclassed: not a class
+            if ckind != 'plain':
+                behaviours[_nm(c)] = ckind
             gen.append((c, fam))
             if 'handle' in ns:
                 static_ids[c] = 500 + i
@@ -282,6 +367,11 @@ def _resolution(ctx):
             return o
         site = rnd.choice(SITES)
         marker = {}
+        # how the instance is raised (cause / context chains and cycles, traceback manipulations, a used instance, notes ...); the ways that
+        # raise a different object (a group around it, a fresh instance of the class) do not fit the MRO bookkeeping of this part: see (b), (c)
+        tkind = _pick_hostile(rnd, 0.2, throw_ok=lambda k: k not in ('group', 'group_hostile', 'raised_class_not_instance'))[1]
+        inherited = [behaviours[_nm(b)] for b in exc_cls.__mro__ if any(b is g for g in classes) and _nm(b) in behaviours]
+        hostile = bool(inherited) or tkind != 'plain'
 
         def preset(resp):
             if site == 'render':
@@ -297,10 +387,10 @@ def _resolution(ctx):
                 return
             if rnd.random() < 0.5:
                 resp.data = b'PRESET'
-            raise make()
+            X.throw(tkind, make)
         app = _install(app_cls, asgi, site, raiser, preset)
         if site == 'render':
-            app.resp_options.media_handlers['application/x-raise'] = _raising_media_handler(make)
+            app.resp_options.media_handlers['application/x-raise'] = _raising_media_handler(make, tkind)
         regs = []
 
         def do_regs(k0, n):
@@ -308,25 +398,25 @@ def _resolution(ctx):
                 style = rnd.choice(['single', 'single', 'single', 'tuple', 'static'])
                 cands = classes + [Exception, falcon.HTTPError, falcon.HTTPStatus, LookupError, falcon.HTTPNotFound, BaseException]
                 if style == 'static':
-                    havers = [c for c in classes if getattr(c, 'handle', None) is not None]
+                    havers = [c for c in classes if any('handle' in b.__dict__ for b in c.__mro__)]      # (no getattr: a metaclass may answer misses)
                     if not havers:
                         style = 'single'
                     else:
                         c = rnd.choice(havers)
                         app.add_error_handler(c)
                         hid = next(static_ids[b] for b in c.__mro__ if b in static_ids and 'handle' in b.__dict__)
-                        history.append((c, hid)); regs.append(('static', c.__name__, hid))
+                        history.append((c, hid)); regs.append(('static', _nm(c), hid))
                         continue
                 if style == 'tuple':
                     cs = tuple(rnd.sample(cands, 2))
                     app.add_error_handler(cs, mkhandler(k, sets := rnd.random() < 0.7))
                     for c in cs:
                         history.append((c, k))
-                    regs.append(('tuple', [c.__name__ for c in cs], k, sets))
+                    regs.append(('tuple', [_nm(c) for c in cs], k, sets))
                 else:
                     c = rnd.choice(cands)
                     app.add_error_handler(c, mkhandler(k, sets := rnd.random() < 0.7))
-                    history.append((c, k)); regs.append(('single', c.__name__, k, sets))
+                    history.append((c, k)); regs.append(('single', _nm(c), k, sets))
 
         n1 = rnd.randint(0, 5)
         do_regs(0, n1)
@@ -336,7 +426,7 @@ def _resolution(ctx):
             _call(app, stack, via_testing=False)
             del called[:]
         do_regs(n1, rnd.randint(0, 3) if warmed else rnd.randint(0, 1))
-        r = _call(app, stack, via_testing=(ci % 16 == 0))
+        r = _call_obj(app, stack, hostile, via_testing=(ci % 16 == 0))
         mro = exc_cls.__mro__[:-1]
         # ---- oracle: independent argmin over the MRO; the three default registrations are part of the history
         exp = None
@@ -361,7 +451,9 @@ def _resolution(ctx):
             else:
                 got = f'unknown:{r.status}'
         what = None
-        if got != exp:
+        if r.escaped is not None and exp is not None:
+            what = f'exception escaped to the server: {r.escaped!r} (handler {exp} is registered for the nearest class of the MRO; ran: {got})'
+        elif got != exp:
             what = f'handler {got} ran, expected {exp}'
         elif b'PRESET' in r.body:
             what = f'body set before the raise was sent: {r.body[:60]!r}'
@@ -374,8 +466,9 @@ def _resolution(ctx):
                 what = f'custom handler set text h{exp} but the body sent is {r.body[:60]!r}'
             elif sets is False and r.body != b'':
                 what = f'custom handler set no body but {r.body[:60]!r} was sent'
-        case = {'stack': stack, 'site': site, 'raised': exc_cls.__name__, 'mro': [c.__name__ for c in mro],
-                'classes': {c.__name__: [b.__name__ for b in c.__bases__] for c in classes},
+        case = {'stack': stack, 'site': site, 'raised': _nm(exc_cls), 'mro': [_nm(c) for c in mro],
+                'classes': {_nm(c): [_nm(b) for b in c.__bases__] for c in classes},
+                'object_behaviour_by_class (lib_hostileexc)': behaviours, 'raised_how (lib_hostileexc.throw)': tkind,
                 'registrations_after_defaults': regs, 'registrations_before_first_request': n1 if warmed else None, 'via_testing': ci % 16 == 0}
         ctx.oracle(name, what is None, what, case)
         sess.case(case)
@@ -383,8 +476,12 @@ def _resolution(ctx):
         for c, h in history:
             sess.op(f'reg {cid(c)} {h}', 'ok')
         sess.op('find ' + ','.join(str(cid(c)) for c in mro), str(got))
-        ctx.seen(('a', stack, site, str(case['classes']), str(regs), exc_cls.__name__), True)
+        ctx.seen(('a', stack, site, str(case['classes']), str(regs), _nm(exc_cls), str(behaviours), tkind), True)
         ctx.count('a_site_' + site)
+        for hk in set(inherited):
+            ctx.count('a_object_' + hk)
+        ctx.count('a_raised_how_' + tkind)
+        ctx.count('a_object_' + ('hostile' if hostile else 'ordinary'))
         ctx.count('a_stack_' + stack)
         ctx.count('a_chosen_' + ('custom' if isinstance(exp, int) and exp < 9000 else {D_EXC: 'default_exception', D_HTTP: 'default_httperror', D_STATUS: 'default_httpstatus'}.get(exp, 'none')))
     sess.finish()
@@ -396,6 +493,7 @@ def _sites(ctx):
     import json
     import falcon
     import falcon.asgi
+    import lib_hostileexc as X
     rnd = ctx.rng
     sess = ctx.session('_handle_exception outcome (WSGI+ASGI, every raise site) = Eh.handle', 'ehdriver')
     name = 'raise sites: body set before the raise is discarded; the response is what the handler defines; handler-raised HTTPError/HTTPStatus is rendered; default 500 never escapes; body of a render-time error is sent'
@@ -416,8 +514,20 @@ def _sites(ctx):
             presets = ['media']
         primed = site not in ('render', 'render415') and rnd.random() < 0.4
 
-        class AppErr(Exception):
-            pass
+        # the exception OBJECT: what it does when it is looked at (class level) and how it is raised (instance level); the HTTPError /
+        # HTTPStatus a handler raises is of the same kind.  The ways of raising that produce another object need a class that can be
+        # instantiated without arguments / end at the default handler of Exception
+        if site == 'render415':
+            ckind = tkind = 'plain'
+        else:
+            ckind, tkind = _pick_hostile(rnd, 0.75 if exc == 'plain' else 0.3, throw_ok=lambda k: (
+                exc == 'plain' if k in ('group', 'group_hostile') else exc in ('plain', 'custom') if k == 'raised_class_not_instance' else True))
+        hostile = (ckind, tkind) != ('plain', 'plain')
+        AppErr = X.build(ckind, 'AppErr', (Exception,))
+        PlainErr = X.build(ckind, 'PlainErr', (RuntimeError,)) if hostile else RuntimeError
+        Conflict = X.build(ckind, 'Conflict', (falcon.HTTPConflict,)) if hostile else falcon.HTTPConflict
+        Gone = X.build(ckind, 'Gone', (falcon.HTTPGone,)) if hostile else falcon.HTTPGone
+        Status = X.build(ckind, 'Status', (falcon.HTTPStatus,)) if hostile else falcon.HTTPStatus
         called = []
         drafts = [p for p in ('text', 'data', 'media') if rnd.random() < 0.6] or [rnd.choice(['text', 'data', 'media'])]
 
@@ -425,11 +535,11 @@ def _sites(ctx):
             if site == 'render415':
                 raise AssertionError('render415 raises by itself')
             if exc == 'http':
-                return falcon.HTTPConflict(title='T-conflict', description='D-conflict', headers={'X-Err': 'e1'})
+                return Conflict(title='T-conflict', description='D-conflict', headers={'X-Err': 'e1'})
             if exc == 'status':
-                return falcon.HTTPStatus(299, headers={'X-St': 's1'}, text='status-text')
+                return Status(299, headers={'X-St': 's1'}, text='status-text')
             if exc == 'plain':
-                return RuntimeError('plain')
+                return PlainErr('plain')
             return AppErr('custom')
 
         def preset(resp):
@@ -451,7 +561,7 @@ def _sites(ctx):
                 resp.content_type = 'application/x-nobody-handles-this'
                 return
             preset(resp)
-            raise make()
+            X.throw(tkind, make)
 
         def hbody(resp):
             called.append(out)
@@ -461,8 +571,8 @@ def _sites(ctx):
             elif out == 'set_media':
                 resp.media = {'handler': 'media'}
                 resp.content_type = falcon.MEDIA_JSON        # (at the render sites the content type is what made rendering fail)
-            elif out == 'raise_http': raise falcon.HTTPGone(title='T-gone', headers={'X-Err': 'e2'})
-            elif out == 'raise_status': raise falcon.HTTPStatus(298, headers={'X-St': 's2'}, text='handler-status-text')
+            elif out == 'raise_http': raise Gone(title='T-gone', headers={'X-Err': 'e2'})
+            elif out == 'raise_status': raise Status(298, headers={'X-St': 's2'}, text='handler-status-text')
             elif out.startswith('draft_'):
                 # the handler assigns a body and THEN raises: the raised error / status is what must be rendered
                 if 'text' in drafts: resp.text = 'DRAFT-text'
@@ -470,9 +580,9 @@ def _sites(ctx):
                 if 'media' in drafts:
                     resp.media = {'DRAFT': 'media'}
                     if site not in ('render', 'render415'): resp.content_type = falcon.MEDIA_JSON
-                if out == 'draft_raise_http': raise falcon.HTTPGone(title='T-gone', headers={'X-Err': 'e2'})
-                if out == 'draft_raise_status': raise falcon.HTTPStatus(298, headers={'X-St': 's2'}, text='handler-status-text')
-                raise falcon.HTTPStatus(297, headers={'X-St': 's3'})
+                if out == 'draft_raise_http': raise Gone(title='T-gone', headers={'X-Err': 'e2'})
+                if out == 'draft_raise_status': raise Status(298, headers={'X-St': 's2'}, text='handler-status-text')
+                raise Status(297, headers={'X-St': 's3'})
             elif out == 'raise_plain': raise KeyError('raised inside the handler')
         if asgi:
             async def h(req, resp, ex, params): hbody(resp)
@@ -480,7 +590,7 @@ def _sites(ctx):
             def h(req, resp, ex, params): hbody(resp)
         app = _install(falcon.asgi.App if asgi else falcon.App, asgi, site, raiser, preset)
         if site == 'render':
-            app.resp_options.media_handlers['application/x-raise'] = _raising_media_handler(make)
+            app.resp_options.media_handlers['application/x-raise'] = _raising_media_handler(make, tkind)
         # what is raised, for the oracle
         if site == 'render415':
             raised = 'custom' if exc == 'custom' else 'http415'
@@ -490,7 +600,7 @@ def _sites(ctx):
             raised = exc
             if exc == 'custom':
                 app.add_error_handler(AppErr, h)
-        r = _call(app, stack, via_testing=(ci % 16 == 5))
+        r = _call_obj(app, stack, hostile, via_testing=(ci % 16 == 5))
         j = _json_or_none(r.body)
         what = None
 
@@ -536,7 +646,8 @@ def _sites(ctx):
             what = f'content set before the raise was sent: {r.body[:80]!r}'
         if what is None and b'DRAFT' in r.body:
             what = f'content the handler set before raising was sent instead of the raised error/status: {r.body[:80]!r}'
-        case = {'stack': stack, 'site': site, 'raised': raised, 'handler_outcome': out, 'preset': presets, 'preset_rendered_once': primed, 'via_testing': ci % 16 == 5}
+        case = {'stack': stack, 'site': site, 'raised': raised, 'handler_outcome': out, 'preset': presets, 'preset_rendered_once': primed, 'via_testing': ci % 16 == 5,
+                'object_behaviour (lib_hostileexc.build)': ckind, 'raised_how (lib_hostileexc.throw)': tkind}
         if out and out.startswith('draft_'):
             case['handler_drafts'] = drafts
         ctx.oracle(name, what is None, what, case)
@@ -573,8 +684,12 @@ def _sites(ctx):
             obs = f'status={r.status} body={src}'
         if out != 'draft_raise_status_notext':       # (Eh.composeStatus always carries a text; the text-less HTTPStatus is judged by the oracle only)
             sess.op(f'handle {mro} {st_raised} {pre}', obs)
-        ctx.seen(('b', stack, site, raised, out, tuple(presets)), True)
+        ctx.seen(('b', stack, site, raised, out, tuple(presets), ckind, tkind), True)
         ctx.count('b_site_' + site)
+        ctx.count('b_object_' + ckind)
+        ctx.count('b_raised_how_' + tkind)
+        if hostile:
+            ctx.count(f'b_hostile_object_{raised}_{stack}')
         ctx.count('b_raised_' + raised + ('' if out is None else ':' + out))
     sess.finish()
 
@@ -616,7 +731,31 @@ def _rand_text(rnd, xml_safe, maxlen=12):
 
 
 VND_JSON = 'application/vnd.acme+json'
-_SIMPLE_RANGE = __import__('re').compile(r'^\s*(\*|\*/\*|[a-z0-9.+-]+/(?:[a-z0-9.+-]+|\*))\s*(;\s*[qQ]=\s*([0-9]*\.?[0-9]+))?\s*$')
+
+
+def _recase(rnd, tok):
+    """a case variant of a token that HTTP compares case-insensitively (media type / subtype / structured-syntax suffix / parameter name;
+    RFC 9110 8.3.1, 5.6.6): as is, UPPER, Title, or every letter at random"""
+    r = rnd.random()
+    if r < 0.45:
+        return tok
+    if r < 0.65:
+        return tok.upper()
+    if r < 0.8:
+        return tok.title()
+    return ''.join(c.upper() if rnd.random() < 0.5 else c.lower() for c in tok)
+
+
+def _recase_range(rnd, mt):
+    """the media range with type, subtype and +suffix re-cased independently (so that `+JSON` occurs with a lower-case type and vice versa)"""
+    t, _, sub = mt.partition('/')
+    if '+' in sub:
+        stem, _, suffix = sub.rpartition('+')
+        sub = _recase(rnd, stem) + '+' + _recase(rnd, suffix)
+    else:
+        sub = _recase(rnd, sub)
+    return _recase(rnd, t) + '/' + sub
+_SIMPLE_RANGE = __import__('re').compile(r'^\s*(\*|\*/\*|[A-Za-z0-9.+-]+/(?:[A-Za-z0-9.+-]+|\*))\s*(;\s*[qQ]=\s*([0-9]*\.?[0-9]+))?\s*$')
 LINK_DEFAULT = 'Documentation related to this error'
 
 
@@ -650,6 +789,7 @@ def _serialization(ctx):
     import falcon
     import falcon.asgi
     import falcon.media
+    import lib_hostileexc as X
     rnd = ctx.rng
     name_http = 'default HTTPError response: own status and headers, Vary: Accept, body = faithful encoding (JSON unless the client prefers XML / a configured type) of title/description/code/link'
     name_status = 'default HTTPStatus response: its status, headers and text'
@@ -665,7 +805,8 @@ def _serialization(ctx):
         def deserialize(self, stream, content_type, content_length):
             return json.loads(stream.read()[8:])
 
-    ranges_pool = [JSON, XML_A, XML_T, 'text/html', '*/*', 'application/*', 'text/*', VND_JSON, 'application/vnd.acme+xml', YAML, 'image/png']
+    ranges_pool = [JSON, XML_A, XML_T, 'text/html', '*/*', 'application/*', 'text/*', VND_JSON, 'application/vnd.acme+xml', YAML, 'image/png',
+                   'application/problem+json', 'application/atom+xml', 'application/vnd.acme.thing.v2+json', 'image/svg+xml']
     for ci in range(ctx.n(12000, 150000)):
         stack = rnd.choice(['wsgi', 'asgi'])
         asgi = stack == 'asgi'
@@ -679,6 +820,9 @@ def _serialization(ctx):
         rnd.shuffle(extra)
         drop_json = rnd.random() < 0.05
         drop_forms = rnd.random() < 0.1
+        # what falcon may render an error as: JSON, XML if enabled, and the configured response media handlers other than the
+        # request-only form types (multipart cannot serialize at all, a URL-encoded form cannot hold the error document)
+        offered = [JSON] + ([XML_T, XML_A] if xml_on else []) + [e for e in extra if not (xml_on and e == XML_A)]
         # Accept header
         accept = None
         ranges = [('*', '*', 1.0)]          # falcon's (and HTTP's) default when the header is absent
@@ -687,15 +831,24 @@ def _serialization(ctx):
             if rnd.random() < 0.08:
                 picks = rnd.sample([FORM, MULTI], 1) + picks[:1]
             parts, ranges = [], []
+            # every token the negotiation reads is compared case-insensitively by HTTP: with probability 0.5 the header is written in
+            # another case (type, subtype, +suffix and the name of the q parameter re-cased independently)
+            # (this found that falcon.util.mediatypes compared type / subtype case-sensitively - `Accept: Application/xml` got no error
+            #  body -, repaired in /repo a19fe30)
+            cased = rnd.random() < 0.5
             for mt in picks:
                 q = rnd.choice([None, None, None, 0, 0.1, 0.5, 0.9, 1])
-                parts.append(mt if q is None else f'{mt};q={q}')
+                shown = _recase_range(rnd, mt) if cased else mt
+                if cased and shown != mt and any(_quality(o, [tuple(mt.split('/')) + (1.0,)]) > 0 for o in offered):
+                    ctx.count('c_accept_range_matching_an_offered_type_in_other_case')
+                qn = rnd.choice(['q', 'Q']) if cased else 'q'
+                parts.append(shown if q is None else f'{shown}{rnd.choice([";", "; ", " ;", " ; "]) if cased else ";"}{qn}={q}')
                 t, s = mt.split('/')
-                ranges.append((t, s, 1.0 if q is None else float(q)))
+                ranges.append((t, s, 1.0 if q is None else float(q)))     # (the RFC evaluator below works on the canonical lower-case spelling)
             accept = rnd.choice([', ', ',']).join(parts)
-        # what falcon may render an error as: JSON, XML if enabled, and the configured response media handlers other than the
-        # request-only form types (multipart cannot serialize at all, a URL-encoded form cannot hold the error document)
-        offered = [JSON] + ([XML_T, XML_A] if xml_on else []) + [e for e in extra if not (xml_on and e == XML_A)]
+            ctx.count('c_accept_case_' + ('as_is' if accept == accept.lower() else 'other_case'))
+            if any('+' in p and p.split(';')[0] != p.split(';')[0].lower() for p in parts):
+                ctx.count('c_accept_suffix_type_in_other_case')
         qs = {mt: _quality(mt, ranges) for mt in offered}
         top = max(qs.values())
         best = [mt for mt in offered if qs[mt] == top and top > 0]
@@ -729,15 +882,24 @@ def _serialization(ctx):
         st_status = rnd.choice([200, 201, 202, 299, 301, 404, '201 Created', http.HTTPStatus.ACCEPTED])
         st_text = rnd.choice([None, '', _rand_text(rnd, False, 30)])
 
+        # the exception OBJECT (see lib_hostileexc): hostile dunder methods / metaclass, unusual ways of raising
+        ckind, tkind = _pick_hostile(rnd, 0.5 if kind == 'plain' else 0.12, throw_ok=lambda k: (
+            kind == 'plain' if k in ('group', 'group_hostile', 'raised_class_not_instance') else True))
+        hostile = (ckind, tkind) != ('plain', 'plain')
+        plain_base = rnd.choice([RuntimeError, KeyError, ZeroDivisionError, UnicodeError, StopIteration, OSError, Exception, LookupError, ArithmeticError])
+        Cls = {'http': falcon.HTTPError, 'status': falcon.HTTPStatus, 'plain': plain_base}[kind]
+        if hostile:
+            Cls = X.build(ckind, 'Raised', (Cls,))
+
         def make():
             if kind == 'http':
-                return falcon.HTTPError(status_val, title=title, description=desc, headers=hdrs, href=href, href_text=href_text, code=code)
+                return Cls(status_val, title=title, description=desc, headers=hdrs, href=href, href_text=href_text, code=code)
             if kind == 'status':
-                return falcon.HTTPStatus(st_status, headers=hdrs, text=st_text)
-            return rnd.choice([RuntimeError, KeyError, ZeroDivisionError, UnicodeError, StopIteration, OSError])('boom')
+                return Cls(st_status, headers=hdrs, text=st_text)
+            return Cls('boom')
 
         def raiser(resp):
-            raise make()
+            X.throw(tkind, make)
 
         # content the response already carries when the error is raised, possibly already rendered once (an earlier phase called
         # resp.render_body(), e.g. to log or sign the body): all of it must be discarded
@@ -767,8 +929,9 @@ def _serialization(ctx):
         for e in extra:
             mh[e] = YamlishHandler()
         keys = list(mh)                                  # mapping order, as default_serialize_error iterates it
-        r = _call(app, stack, via_testing=(ci % 16 == 9), headers={'Accept': accept} if accept is not None else None)
+        r = _call_obj(app, stack, hostile, via_testing=(ci % 16 == 9), headers={'Accept': accept} if accept is not None else None)
         case = {'stack': stack, 'site': site, 'kind': kind, 'accept': accept, 'xml_error_serialization': xml_on, 'response_media_handlers': keys,
+                'object_behaviour (lib_hostileexc.build)': ckind, 'raised_how (lib_hostileexc.throw)': tkind, 'base_class': _nm(Cls.__mro__[1] if hostile else Cls),
                 'header_set_before_the_raise': pre_hdr, 'via_testing': ci % 16 == 9, 'body_set_before_the_raise': stale, 'and_rendered_once': primed}
         what = None
         ctx.count('c_stale_' + str(stale) + ('_rendered' if primed else ''))
@@ -889,6 +1052,10 @@ def _serialization(ctx):
                 ctx.count('c_model_choice_' + choice.split(' ')[0])
         ctx.seen(('c', stack, site, kind, accept, xml_on, tuple(keys), str(pre_hdr), str(case.get('title')), str(case.get('description')), str(case.get('href')), str(hdrs)), True)
         ctx.count('c_kind_' + kind)
+        ctx.count('c_object_' + ckind)
+        ctx.count('c_raised_how_' + tkind)
+        if hostile:
+            ctx.count(f'c_hostile_object_{kind}_{stack}')
         ctx.count('c_expected_' + '|'.join(str(a) for a in allowed))
     sess.finish()
 
@@ -923,7 +1090,8 @@ def _direct(ctx):
                  'application/yaml', 'text/html', 'application/*', 'nonsense', 'application/json; v=1', 'text/plain']
     ranges_pool = [JSON, XML_T, XML_A, FORM, MULTI, YAML, VND_JSON, 'application/vnd.acme+xml', 'text/*', '*/*', 'application/*', 'text/html', 'image/png',
                    'Application/Vnd.X+JSON', 'a/b+XML', 'text/xml;charset=utf-8', 'application/json;v=1', 'foo', '*', '', 'application/yaml', 'text/plain', '+json',
-                   'x+xml', '*/json', 'APPLICATION/JSON', 'multipart/*']
+                   'x+xml', '*/json', 'APPLICATION/JSON', 'multipart/*', 'application/problem+JSON', 'APPLICATION/ATOM+XML', 'application/vnd.acme+Json',
+                   'Image/Svg+Xml', 'application/vnd.acme.thing.v2+json', 'TEXT/*', 'Application/*', 'TEXT/XML', 'application/XML']
     q_pool = [None, None, None, '0', '0.1', '0.5', '0.9', '1', '1.0', '0.000', 'abc', '2', '-1', '0.33', ' 0.7', '.5']
     for ci in range(ctx.n(16000, 200000)):
         asgi = rnd.random() < 0.5
@@ -976,9 +1144,9 @@ def _direct(ctx):
                 for m in (accept or '*/*').split(','):
                     g = _SIMPLE_RANGE.match(m)
                     if not g or not 0 <= float(g.group(3) or 1) <= 1:
-                        rngs = None           # parameters, upper case, "*/sub", malformed members: outside this simple oracle
+                        rngs = None           # parameters, "*/sub", malformed members: outside this simple oracle
                         break
-                    t = '*/*' if g.group(1) == '*' else g.group(1)
+                    t = '*/*' if g.group(1) == '*' else g.group(1).lower()      # media types are case-insensitive (RFC 9110 8.3.1)
                     rngs.append(tuple(t.split('/')) + (float(g.group(3) or 1),))
                 if rngs is not None and len({x[:2] for x in rngs}) < len(rngs):
                     rngs = None               # the same range twice with different weights: RFC 7231 does not say which one counts
@@ -990,6 +1158,18 @@ def _direct(ctx):
                         others = ([XML_T, XML_A] if xml_on else []) + [k for k, _ in hs if k not in (FORM, MULTI)]
                         if all(_quality(k, rngs) <= qj for k in others):
                             what = f'JSON has the highest quality ({qj}) among the offered types but the choice is {got}'
+                    elif all('/' in k and ';' not in k and '*' not in k and k == k.lower() for k, _ in hs):
+                        # nothing that is offered is acceptable by the RFC: the documented fallback - "if a custom media type is used and the
+                        # type includes a +json or +xml suffix, the error will be serialized to JSON or XML" - in whatever case it is spelled
+                        offered = [JSON] + ([XML_T, XML_A] if xml_on else []) + [k for k, _ in hs if k not in (FORM, MULTI)]
+                        if all(_quality(k, rngs) == 0 for k in offered):
+                            sfx = [x.split('/')[1].rpartition('+')[2] for x in (r_[0] + '/' + r_[1] for r_ in rngs) if '+' in x.split('/')[1]]
+                            if 'json' in sfx and got != 'json':
+                                what = f'the client asks for a "+json" type ({accept!r}) and accepts none of the offered types outright, but the choice is {got}'
+                            elif 'json' not in sfx and 'xml' in sfx and xml_on and not (got.split(' ')[0] in ('xml', 'media') and ct == XML_A):
+                                what = f'the client asks for a "+xml" type ({accept!r}) and accepts none of the offered types outright, but the choice is {got}'
+                            if sfx:
+                                ctx.count('d_suffix_fallback_judged' + ('_other_case' if accept != accept.lower() else ''))
         except Exception as e:  # noqa
             got = 'raised ' + type(e).__name__
             what = f'default_serialize_error raised {e!r}'
@@ -1091,7 +1271,7 @@ LEVEL_TEXT = ('Machine-checked proofs (Lean 4) about transcriptions of add_error
               'whenever no offered type has a higher quality, XML only if strictly preferred (or by the +xml suffix) and enabled, the request-only form types never, nothing iff the client accepts '
               'none of the offered types and no suffix heuristic fires; Vary: Accept is always appended after the error\'s own headers; the error document has exactly the fields that are set; '
               'status and headers of the HTTPError/HTTPStatus are kept. The models are tied to falcon/app.py, falcon/asgi/app.py, falcon/app_helpers.py and falcon/http_error.py on every run by '
-              'differential correspondences (the real app, WSGI and ASGI, every raise site incl. body rendering, and the modelled functions called directly on exotic configurations, against the '
+              'differential correspondences (the real app, WSGI and ASGI, every raise site incl. body rendering, raised objects with hostile dunder methods / metaclasses / cause chains, Accept headers in any letter case, and the modelled functions called directly on exotic configurations, against the '
               'compiled models) and independent oracles written from the statement decide failing inputs, including the faithfulness of the default JSON/XML error bodies over arbitrary Unicode.')
 LEVEL_NOTE = ('Trusted: Lean kernel + standard axioms; the correspondence harness and oracles; json/ElementTree decoders. Encoder faithfulness (json.dumps, ElementTree, media handlers, uri.encode) '
               'is oracle-checked, not proved; the negotiation model covers ASCII Accept headers with plain decimal q values.')
